@@ -387,7 +387,7 @@ theorem objValue : Value cfgC 2 (objText.drop 4)
     [([0x61], .str [0x78, 0x27, 0x22]), ([0x6E], .arr [.num (.uint 1), .num (.f32 0x3F000000)])]
     (Members.cons 1 [] [0x61] [0x61] [] [] [0x27, 0x78, 0x5C, 0x27, 0x22, 0x27] _ []
       [0x22, 0x6E, 0x22, 0x3A, 0x5B, 0x2B, 0x31, 0x2C, 0x2E, 0x35, 0x5D] _
-      DWs.nil (Key.bare [0x61] (by decide) (by decide)) DWs.nil DWs.nil hstr DWs.nil
+      DWs.nil (Key.bare [0x61] (by decide) (by decide) (by decide)) DWs.nil DWs.nil hstr DWs.nil
       (Members.one 1 [] [0x22, 0x6E, 0x22] [0x6E] [] [] [0x5B, 0x2B, 0x31, 0x2C, 0x2E, 0x35, 0x5D] _ []
         DWs.nil (Key.quoted 0x22 [0x6E] [0x6E] (Or.inl rfl) (by decide +kernel) (by decide)) DWs.nil DWs.nil harr DWs.nil))
 
